@@ -317,6 +317,13 @@ def parse (brace : Bool) : Nat → Str → Bool → PR
     else
       afterDetect lp rp (parse brace fuel) nested (detect lp rp (input.length + 1) input)
 
+/-- `parseComponent`, single occurrence: parse the content; on "operator outside combination"
+    parse it again in parentheses -/
+def parseContent (fuel : Nat) (content : Str) : PR :=
+  match parse false fuel content false with
+  | .res r => if r.code = cOutside then parse false fuel ('(' :: content ++ [')']) false else .res r
+  | x => x
+
 /-- canonical text of a tree (the harness prints the Go tree in the same form) -/
 def showList : List Str → Str
   | [] => []
